@@ -16,10 +16,11 @@
 (*    callback delivered, else the configured one (`RefTok`);              *)
 (*  * the IMPLEMENTATION-SHAPED functions of HttpxTransport._prepare_      *)
 (*    headers / request and of the bundled plug-ins (python dicts are      *)
-(*    ordered, case-SENSITIVE; auth runs on a headers-only scratch dict;   *)
+(*    ordered, case-SENSITIVE; auth runs on copies of the request's        *)
+(*    headers / params / cookies and what it leaves there is sent;         *)
 (*    the transport's default-headers dict and the plug-in's access_token  *)
 (*    are STATE that lives across requests), plus the variants "fixed"     *)
-(*    (case-insensitive merge, plug-ins get the real request arguments)    *)
+(*    (case-insensitive merge of header names)                             *)
 (*    and "aliased_defaults" (a deliberately broken design used to show    *)
 (*    that the isolation properties bind);                                 *)
 (*  * the judge `Failures(view, obs)` / `SessionFailures(cfg, obsSeq)`.    *)
@@ -229,10 +230,10 @@ StepPerRequest(variant, reqHeaders, prepared) == HUpdate(variant, prepared, reqH
 \* broken variant prepared IS that dict whenever it is non-empty (`prepared = self._default_headers or {}`)
 DefaultsAfter(variant, tdefaults, prepared) ==
   IF variant = "aliased_defaults" /\ tdefaults # <<>> THEN prepared ELSE tdefaults
-\* 3. temp_request_args_for_auth = {"headers": prepared_headers.copy()}   (as is: nothing else of the request)
-ScratchOf(variant, cfg, prepared) ==
-  IF variant = "fixed" THEN [headers |-> prepared, params |-> cfg.params, cookies |-> cfg.cookies]
-  ELSE [headers |-> prepared, params |-> <<>>, cookies |-> <<>>]
+\* 3. temp_request_args_for_auth = {"headers": prepared_headers.copy(), "params": dict(kwargs.get("params") or {}),
+\*    "cookies": dict(kwargs.get("cookies") or {})}  - since /repo a4b4b62 the plug-ins see (copies of) the request's query
+\*    parameters and cookies; before, the scratch dict carried the headers only and query / cookie API keys were lost
+ScratchOf(variant, cfg, prepared) == [headers |-> prepared, params |-> cfg.params, cookies |-> cfg.cookies]
 \* OAuth2Auth: new = await refresh_callback(self.access_token); if new and new != access_token: access_token = new
 \* (stored = self.access_token, i = number of this call)
 RefreshStep(p, i, stored) ==
@@ -250,13 +251,14 @@ ApplyPlugin(variant, p, tok, args) ==
 \* elif self._bearer_token is not None: prepared_headers["Authorization"] = ...
 StepShortcut(variant, cfg, prepared) == HPut(variant, prepared, "Authorization", "Bearer " \o cfg.bearer)
 
+\* for key in ("params", "cookies"): if authenticated_args.get(key): kwargs[key] = authenticated_args[key]
 \* request_args = kwargs without headers ; request_args["headers"] = prepared ; client.request(**request_args):
-\* httpx sends every dict entry (case variants are separate entries); as is, params / cookies of the scratch dict
-\* are not part of the request.  `defaults` = the transport's default-headers dict after the request.
+\* httpx sends every dict entry (case variants are separate entries).
+\* `defaults` = the transport's default-headers dict after the request.
 WireOf(variant, cfg, headers, args, calls, tdefaults) ==
   [headers  |-> [i \in DOMAIN headers |-> <<headers[i][1], Lower(headers[i][1]), headers[i][2]>>],
-   query    |-> IF variant = "fixed" THEN args.params ELSE cfg.params,
-   cookies  |-> IF variant = "fixed" THEN args.cookies ELSE cfg.cookies,
+   query    |-> IF args.params # <<>> THEN args.params ELSE cfg.params,
+   cookies  |-> IF args.cookies # <<>> THEN args.cookies ELSE cfg.cookies,
    body     |-> cfg.body,
    refresh  |-> calls,
    defaults |-> tdefaults,
